@@ -149,15 +149,14 @@ func FloatAsSigned[S constraints.Float, D constraints.Signed](src *Buffer[S], ds
 	msv := D(dst.BitDepth().MaxSignedValue())
 	for i := 0; i < length; i++ {
 		var sample D
-		if f := float64(src.Sample(i)); f > 0 {
-			// detect overflow
-			if D(f) == 0 {
-				sample = D(f * float64(msv))
-			} else {
-				sample = msv
-			}
-		} else {
-			// no overflow here
+		switch f := float64(src.Sample(i)); {
+		case f >= 1:
+			sample = msv
+		case f <= -1:
+			sample = -msv - 1
+		case f > 0:
+			sample = D(f * float64(msv))
+		default:
 			sample = D(f * (float64(msv) + 1))
 		}
 		dst.SetSample(i, sample)
@@ -182,15 +181,14 @@ func FloatAsUnsigned[S constraints.Float, D constraints.Unsigned](src *Buffer[S]
 	offset := msv + 1
 	for i := 0; i < length; i++ {
 		var sample D
-		if f := float64(src.Sample(i)); f > 0 {
-			// detect overflow
-			if int64(f) == 0 {
-				sample = D(f*float64(msv)) + offset
-			} else {
-				sample = msv + offset
-			}
-		} else {
-			// no overflow here
+		switch f := float64(src.Sample(i)); {
+		case f >= 1:
+			sample = msv + offset
+		case f <= -1:
+			sample = 0
+		case f > 0:
+			sample = D(f*float64(msv)) + offset
+		default:
 			sample = D(f*(float64(msv)+1)) + offset
 		}
 		dst.SetSample(i, sample)
